@@ -297,6 +297,9 @@ pub uninterp spec fn sink_flushed_len<W: ?Sized>(w: &W) -> int;
 /// a ghost attribute of a sink that no write/flush changes (for the counting wrapper: the length of the
 /// inner log when the wrapper was created)
 pub uninterp spec fn sink_base<W: ?Sized>(w: &W) -> int;
+/// a sink that never fails (an in-memory vector, a healthy file): every write accepts something, write_all and flush succeed.
+/// A ghost attribute no call changes; used only to state C12's "when no component fails, no error is reported" for the write side
+pub uninterp spec fn sink_reliable<W: ?Sized>(w: &W) -> bool;
 /// content of a source (never changes), current position, and whether it is a plain in-memory style source
 /// that fails only when asked for bytes beyond its end
 pub uninterp spec fn rd_bytes<R: ?Sized>(r: &R) -> Seq<u8>;
@@ -308,6 +311,8 @@ pub uninterp spec fn rd_loads<R: ?Sized>(r: &R) -> int;
 /// std: `impl Write for Vec<u8>` appends and never fails; the log of such a sink is its content (convention)
 pub broadcast axiom fn axiom_vec_sink(v: &Vec<u8>)
     ensures #[trigger] sink_wf(v), #[trigger] sink_bytes(v) == v@;
+pub broadcast axiom fn axiom_vec_sink_reliable(v: &Vec<u8>)
+    ensures #[trigger] sink_reliable(v);
 
 /// physical bound: no sink ever accepted 2^62 bytes (used only to discharge counter overflow)
 pub axiom fn axiom_sink_physical<W: ?Sized>(w: &W)
@@ -320,20 +325,23 @@ pub trait ExWrite {
     fn write(&mut self, buf: &[u8]) -> (r: io::Result<usize>)
         requires sink_wf(old(self)),
         ensures
-            sink_wf(final(self)), sink_base(final(self)) == sink_base(old(self)),
+            sink_wf(final(self)), sink_base(final(self)) == sink_base(old(self)), sink_reliable(final(self)) == sink_reliable(old(self)),
             match r {
                 Ok(n) => n <= buf@.len() && sink_bytes(final(self)) == sink_bytes(old(self)) + buf@.subrange(0, n as int),
                 Err(_) => sink_bytes(final(self)) == sink_bytes(old(self)),
-            };
+            },
+            sink_reliable(old(self)) ==> r is Ok;
     fn flush(&mut self) -> (r: io::Result<()>)
         requires sink_wf(old(self)),
         ensures sink_wf(final(self)), sink_bytes(final(self)) == sink_bytes(old(self)), sink_base(final(self)) == sink_base(old(self)),
+            sink_reliable(final(self)) == sink_reliable(old(self)), sink_reliable(old(self)) ==> r is Ok,
             r is Ok ==> sink_flushed_len(final(self)) == sink_bytes(final(self)).len();
     /// std default loop: on Ok exactly buf was accepted, whatever the split / however many Interrupted;
     /// on Err some prefix of buf was accepted
     fn write_all(&mut self, buf: &[u8]) -> (r: io::Result<()>)
         requires sink_wf(old(self)),
         ensures sink_wf(final(self)), sink_base(final(self)) == sink_base(old(self)),
+            sink_reliable(final(self)) == sink_reliable(old(self)), sink_reliable(old(self)) ==> r is Ok,
             r is Ok ==> sink_bytes(final(self)) == sink_bytes(old(self)) + buf@,
             r is Err ==> exists|n: int| 0 <= n <= buf@.len() && sink_bytes(final(self)) == sink_bytes(old(self)) + buf@.subrange(0, n);
 }
@@ -423,19 +431,19 @@ pub trait WriteBytesExt: io::Write {
     #[verifier::external_body]
     fn write_u8(&mut self, n: u8) -> (r: io::Result<()>)
         requires sink_wf(old(self)),
-        ensures sink_wf(final(self)), sink_base(final(self)) == sink_base(old(self)), r is Ok ==> sink_bytes(final(self)) == sink_bytes(old(self)) + seq![n],
+        ensures sink_wf(final(self)), sink_base(final(self)) == sink_base(old(self)), sink_reliable(final(self)) == sink_reliable(old(self)), sink_reliable(old(self)) ==> r is Ok, r is Ok ==> sink_bytes(final(self)) == sink_bytes(old(self)) + seq![n],
             r is Err ==> exists|k: int| 0 <= k <= 1 && sink_bytes(final(self)) == sink_bytes(old(self)) + seq![n].subrange(0, k),
     { unimplemented!() }
     #[verifier::external_body]
     fn write_u32<E: ByteOrder>(&mut self, n: u32) -> (r: io::Result<()>)
         requires sink_wf(old(self)),
-        ensures sink_wf(final(self)), sink_base(final(self)) == sink_base(old(self)), r is Ok ==> sink_bytes(final(self)) == sink_bytes(old(self)) + enc::<E>(n as nat, 4),
+        ensures sink_wf(final(self)), sink_base(final(self)) == sink_base(old(self)), sink_reliable(final(self)) == sink_reliable(old(self)), sink_reliable(old(self)) ==> r is Ok, r is Ok ==> sink_bytes(final(self)) == sink_bytes(old(self)) + enc::<E>(n as nat, 4),
             r is Err ==> exists|k: int| 0 <= k <= 4 && sink_bytes(final(self)) == sink_bytes(old(self)) + enc::<E>(n as nat, 4).subrange(0, k),
     { unimplemented!() }
     #[verifier::external_body]
     fn write_u64<E: ByteOrder>(&mut self, n: u64) -> (r: io::Result<()>)
         requires sink_wf(old(self)),
-        ensures sink_wf(final(self)), sink_base(final(self)) == sink_base(old(self)), r is Ok ==> sink_bytes(final(self)) == sink_bytes(old(self)) + enc::<E>(n as nat, 8),
+        ensures sink_wf(final(self)), sink_base(final(self)) == sink_base(old(self)), sink_reliable(final(self)) == sink_reliable(old(self)), sink_reliable(old(self)) ==> r is Ok, r is Ok ==> sink_bytes(final(self)) == sink_bytes(old(self)) + enc::<E>(n as nat, 8),
             r is Err ==> exists|k: int| 0 <= k <= 8 && sink_bytes(final(self)) == sink_bytes(old(self)) + enc::<E>(n as nat, 8).subrange(0, k),
     { unimplemented!() }
 }
